@@ -189,14 +189,27 @@ def gen_items(fam, rng, n):
 
 
 # --------------------------------------------------------------------------- C02: clean slate after a drift
-def clean_slate(fam, p, items, s, setref_at=(), user_reset=False, no_initial_ref=False):
+def clean_slate(fam, p, items, s, setref_at=(), user_reset=False, no_initial_ref=False, reuse=False):
     """A: one detector over the whole history.  B: a NEW detector after every drift of A (same constructor parameters,
     documented carry-over), fed only what arrives afterwards, under the same seed per step.
     user_reset: the caller also calls reset() right after every reported drift (as the docstrings recommend); for the
     detectors whose reset() equals the automatic restart nothing changes, and KdqTreeBatch - whose reset() drops the
     reference - must then behave like a new detector WITHOUT a reference (its next batch becomes the reference).
-    no_initial_ref (KdqTreeBatch): no set_reference at the start, the first update provides the reference."""
+    no_initial_ref (KdqTreeBatch): no set_reference at the start, the first update provides the reference.
+    reuse (row / batch families): the long run A reads everything from ONE preallocated buffer the caller refills in place before each call (the
+    twin gets a snapshot): the reference a detector promotes after a drift is the VALUES of the drifted batch, not whatever the buffer holds later."""
     kind = families()[fam]["kind"]
+    pool = np.zeros((64, 8), dtype=float)
+
+    def arr(x):
+        v = np.array(x, dtype=float)
+        if not reuse or kind not in ("row", "batch"):
+            return v
+        if v.ndim == 1:
+            v = v.reshape(1, -1)
+        view = pool[:v.shape[0], :v.shape[1]]
+        view[...] = v
+        return view
     a = make(fam, p)
     b = make(fam, p)
     ev = []
@@ -206,7 +219,7 @@ def clean_slate(fam, p, items, s, setref_at=(), user_reset=False, no_initial_ref
     drops_ref = fam == "KdqTreeBatch"
     if kind == "batch" and not (no_initial_ref and drops_ref):
         seed(s, 0)
-        a.set_reference(np.array(items[0], dtype=float))
+        a.set_reference(arr(items[0]))
         seed(s, 0)
         b.set_reference(np.array(items[0], dtype=float))
         ev.append(step_event(a, b, fresh=True, off=0, note="set_reference"))
@@ -218,7 +231,7 @@ def clean_slate(fam, p, items, s, setref_at=(), user_reset=False, no_initial_ref
             # set_reference at an arbitrary point = a new detector started on that reference
             off = proj(a)["total"]
             seed(s, t)
-            a.set_reference(np.array(x, dtype=float))
+            a.set_reference(arr(x))
             b = make(fam, p)
             seed(s, t)
             b.set_reference(np.array(x, dtype=float))
@@ -243,7 +256,10 @@ def clean_slate(fam, p, items, s, setref_at=(), user_reset=False, no_initial_ref
         ea = eb = None
         seed(s, t)
         try:
-            feed(fam, a, x)
+            if reuse and kind in ("row", "batch"):
+                a.update(arr(x))
+            else:
+                feed(fam, a, x)
         except ValueError as ex:
             ea = "raised ValueError"
         seed(s, t)
@@ -262,7 +278,7 @@ def clean_slate(fam, p, items, s, setref_at=(), user_reset=False, no_initial_ref
             break
         ev.append(e)
     return {"cfg": {"rel": "EqualShifted"}, "ev": ev, "fam": fam, "params": p, "items": items, "seed": s, "setref_at": list(setref_at),
-            "user_reset": bool(user_reset), "no_initial_ref": bool(no_initial_ref)}
+            "user_reset": bool(user_reset), "no_initial_ref": bool(no_initial_ref), "reuse": bool(reuse)}
 
 
 def sabotage(trace, rng):
